@@ -174,6 +174,19 @@ func init() {
 		k.PWorldFallback = 30
 		k.PCall = 15
 		ec := gen.NewTG(t, k).Case()
+		// determinism covers failures too: sometimes one variable carries an ill-formed or
+		// out-of-range text (the same outcome must come back every time)
+		if gen.Chance(t, "c11.badvar", 25) {
+			var plain []string
+			for _, d := range ec.Script.Vars {
+				if d.Origin == nil {
+					plain = append(plain, d.Name)
+				}
+			}
+			if len(plain) > 0 {
+				ec.Vars[gen.Pick(t, "c11.badvar.name", plain)] = gen.Pick(t, "c11.badvar.text", varTexts)
+			}
+		}
 		if !k.OverdraftFlag && gen.Chance(t, "unknownflag", 30) {
 			ec.Flags = []string{"some-unknown-flag"}
 		}
